@@ -1,7 +1,7 @@
 import RTV.Drv.Proto
 import RTV.Model.Durations
 /-! Driver handlers for L5 `Durations` (BaseDurationParser / BaseSetParser; C10 / C11). Strings are code points (`-` = empty),
-an absent optional is `none`. Configuration fields: `culture` (cps, optionally followed by `/uv` = the variant switches fixUnit, fixValue; rows of `RTV.Gen.durationRows`), `extra` = `none` or
+an absent optional is `none`. Configuration fields: `culture` (cps, optionally followed by `/uvw` = the variant switches fixUnit, fixValue, fixUnitExact; rows of `RTV.Gen.durationRows`), `extra` = `none` or
 rows `spelling|code|secs-or-none` joined by `;` (rows of the real `unit_map` the regenerated table does not hold), `dn` =
 `none` or rows `key|num|den` joined by `;` (`double_numbers`, floats as exact ratios).
 Answers: `ok TAB timex TAB str(value)` | `fail` | `err:Other`.
@@ -42,9 +42,11 @@ def parseDn (f : String) : List (List Nat × Dbl) :=
     | _ => none
 
 def mkCfg (cul extra dn : String) : Cfg :=
-  -- the culture field is `cps` or `cps/uv` with u, v ∈ {0,1}: the variant switches (fixUnit, fixValue)
+  -- the culture field is `cps` or `cps/uvw` with u, v, w ∈ {0,1}: the variant switches (fixUnit, fixValue, fixUnitExact)
   match cul.splitOn "/" with
-  | [c, v] => cfgOf (parseCps c) (parseExtra extra) (parseDn dn) (v.startsWith "1") (v.endsWith "1")
+  | [c, v] =>
+    let bit (i : Nat) : Bool := v.toList[i]? == some '1'
+    cfgOf (parseCps c) (parseExtra extra) (parseDn dn) (bit 0) (bit 1) (bit 2)
   | _ => cfgOf (parseCps cul) (parseExtra extra) (parseDn dn)
 
 def showRes : Res → String
